@@ -126,6 +126,58 @@ fn fixed_programs() -> Vec<(Program, Vec<String>)> {
         },
         vec!["f".to_string()],
     ));
+    // an exit ecall that is only recognised after another exit's fall-through has been cut,
+    // with another function behind it
+    v.push((
+        Program {
+            stmts: vec![
+                label("main"),
+                li(A0, 0),
+                li(A1, 0),
+                call("f"),
+                call("g"),
+                li(A7, 10),
+                ecall(),
+                label("f"),
+                inst(Inst::Branch(BOp::Bne, A0, ZERO, "die".into())),
+                addi(A0, A0, 1),
+                ret(),
+                label("die"),
+                li(A7, 10),
+                inst(Inst::Branch(BOp::Bne, A1, ZERO, "fin".into())),
+                li(A0, 1),
+                li(A7, 93),
+                ecall(),
+                label("fin"),
+                ecall(),
+                label("g"),
+                addi(A0, A0, 1),
+                ret(),
+            ],
+        },
+        vec!["f".to_string(), "g".to_string()],
+    ));
+    // the same inside one function: the code behind the late exit belongs to nobody
+    v.push((
+        Program {
+            stmts: vec![
+                label("main"),
+                call("f"),
+                li(A7, 10),
+                ecall(),
+                label("f"),
+                li(A7, 10),
+                inst(Inst::Branch(BOp::Beq, A0, ZERO, "second".into())),
+                li(A7, 93),
+                ecall(),
+                label("second"),
+                ecall(),
+                addi(A0, A0, 1),
+                ret(),
+            ],
+        },
+        vec!["f".to_string()],
+    ));
     // several labels on one entry, data label directly before a function label
     v.push((
         Program {
